@@ -3945,7 +3945,17 @@ class Argument(DerivativeTargetBase):
         shape = builder.compile(self.shape)
         out = builder.get_variable_for_evaluable(self)
         block = builder.get_block_for_evaluable(self)
-        block.assign_to(out, _pyast.Variable('numpy').get_attr('asarray').call(builder.get_argument(self.name), dtype=self.ast_dtype))
+        block.assign_to(out, _pyast.Variable('numpy').get_attr('asarray').call(builder.get_argument(self.name)))
+        block.if_(_pyast.UnaryOp('not ', _pyast.Variable('numpy').get_attr('can_cast').call(out.get_attr('dtype'), self.ast_dtype, _pyast.LiteralStr('safe')))).raise_(
+            _pyast.Variable('ValueError').call(
+                _pyast.LiteralStr('argument {!r} has the wrong dtype: cannot safely cast {} to {}').get_attr('format').call(
+                    _pyast.LiteralStr(self.name),
+                    out.get_attr('dtype'),
+                    _pyast.LiteralStr(self.dtype.__name__),
+                ),
+            ),
+        )
+        block.assign_to(out, _pyast.Variable('numpy').get_attr('asarray').call(out, dtype=self.ast_dtype))
         block.if_(_pyast.BinOp(shape, '!=', out.get_attr('shape'))).raise_(
             _pyast.Variable('ValueError').call(
                 _pyast.LiteralStr('argument {!r} has the wrong shape: expected {}, got {}').get_attr('format').call(
